@@ -20,16 +20,17 @@ try:
         for t in (ct, rt):
             loader.strip_noops(t); loader.plain_local_assignments(t)
         cur, reff = gate._owner_map(ct), gate._owner_map(rt)
-        newh = gate._helper_table(cur, [q for q in cur if q not in reff])
-        goneh = gate._helper_table(reff, [q for q in reff if q not in cur])
-        print(name, 'new helpers', sorted(newh), 'gone', sorted(goneh))
+        newh_names = [q for q in cur if q not in reff]
+        goneh_names = [q for q in reff if q not in cur]
+        print(name, 'new helpers', sorted(newh_names), 'gone', sorted(goneh_names))
         for q, (f, _, cls_) in cur.items():
             if q in reff and gate._dump(f) != gate._dump(reff[q][0]):
+                newh = gate._helper_table(cur, newh_names, cls_); goneh = gate._helper_table(reff, goneh_names, reff[q][2])
                 c1, c2 = gate.canonical_pair(f, cls_, reff[q][0], reff[q][2], newh, goneh, equiv.module_constants(ct), equiv.module_constants(rt), equiv.module_properties(ct), equiv.module_properties(rt), ct, rt)
                 if c1 is not None and c2 is not None and c1 != c2:
                     cc, cr = gate._called(f), gate._called(reff[q][0])
-                    oc = gate._helper_table(cur, [x for x in gate._own(cur, cls_, cc - cr) if x in reff and x != q])
-                    orr = gate._helper_table(reff, [x for x in gate._own(reff, reff[q][2], cr - cc) if x in cur and x != q])
+                    oc = gate._helper_table(cur, [x for x in gate._own(cur, cls_, cc - cr) if x in reff and x != q], cls_)
+                    orr = gate._helper_table(reff, [x for x in gate._own(reff, reff[q][2], cr - cc) if x in cur and x != q], reff[q][2])
                     if oc or orr:
                         h1 = dict(newh); h1.update(oc); h2 = dict(goneh); h2.update(orr)
                         c1, c2 = gate.canonical_pair(f, cls_, reff[q][0], reff[q][2], h1, h2, equiv.module_constants(ct), equiv.module_constants(rt), equiv.module_properties(ct), equiv.module_properties(rt), ct, rt)
